@@ -111,9 +111,28 @@ impl<'r> SurfGen<'r> {
 
     /// a type-like term
     pub fn ty(&mut self, depth: u32) -> String {
-        let roll = self.rng.below(if depth == 0 { 2 } else { 10 });
+        let roll = self.rng.below(if depth == 0 { 2 } else { 11 });
         match roll {
             | 0 | 1 => self.pick(&UPPER).to_string(),
+            | 10 => {
+                // a chain of three or four operands of one operator; any operand may itself be a
+                // parenthesized chain of the same operator (left, middle or right)
+                self.feat("ty_chain");
+                let op = *self.rng.pick(&[" -> ", " * "]);
+                let n = 3 + self.rng.below(2) as usize;
+                let parts: Vec<String> = (0..n)
+                    .map(|_| {
+                        if self.rng.chance(1, 3) {
+                            format!("({}{op}{})", self.pick(&UPPER), self.pick(&UPPER))
+                        } else if self.rng.chance(1, 4) {
+                            format!("{} {}", self.pick(&UPPER), self.pick(&UPPER))
+                        } else {
+                            self.pick(&UPPER).to_string()
+                        }
+                    })
+                    .collect();
+                parts.join(op)
+            }
             | 2 => format!("{} {}", self.pick(&UPPER), self.atom(depth - 1, true)),
             | 3 => {
                 self.feat("ty_prod");
@@ -335,6 +354,10 @@ impl<'r> SurfGen<'r> {
     /// A whole source text, laid out with random line breaks and indentation at token gaps.
     pub fn program(&mut self, depth: u32) -> String {
         let flat = self.term(depth);
+        if self.rng.chance(1, 3) {
+            // as written, on one line
+            return format!("{flat}\n");
+        }
         // re-space: every blank becomes a blank, a newline or a newline with indentation
         let mut out = String::new();
         let mut in_string = false;
